@@ -9,6 +9,7 @@ package internal
 import (
 	"bytes"
 	"fmt"
+	"io"
 	"os"
 	"os/exec"
 	"path/filepath"
@@ -114,7 +115,7 @@ func (e *c16Env) localise(b []byte) []byte {
 }
 
 type renderCfg struct {
-	pf      pathFormat
+	pf      pathStyle
 	colour  bool
 	level   stack.Similarity
 	filter  string
@@ -126,25 +127,86 @@ func (c renderCfg) String() string {
 	return fmt.Sprintf("pf=%d colour=%v level=%d filter=%q match=%q", c.pf, c.colour, c.level, c.filter, c.match)
 }
 
+// pathStyle is the harness's own name for the three path formats.
+type pathStyle int
+
+const (
+	styleBase pathStyle = iota
+	styleRel
+	styleFull
+)
+
+// processFn runs the command's pipeline on one input. The in-package version (the
+// real process() function) is installed by shim_inpkg_test.go; if that file no
+// longer compiles against the tree the driver drops it and this version, which runs
+// the real pp binary, is used instead.
+var processFn = processViaBinary
+
+var processKind = "pp binary (exec)"
+
+// processInProcess: processFn runs inside this process (readers and writers are the harness's).
+var processInProcess = false
+
+func cfgFlags(c renderCfg, parse bool) []string {
+	var f []string
+	if c.colour {
+		f = append(f, "-force-color")
+	} else {
+		f = append(f, "-no-color")
+	}
+	switch c.pf {
+	case styleFull:
+		f = append(f, "-full-path")
+	case styleRel:
+		f = append(f, "-rel-path")
+	}
+	if c.level == stack.AnyValue {
+		f = append(f, "-aggressive")
+	}
+	if c.filter != "" {
+		f = append(f, "-f", c.filter)
+	}
+	if c.match != "" {
+		f = append(f, "-m", c.match)
+	}
+	if !c.rebase && c.pf != styleRel {
+		f = append(f, "-rebase=false")
+	}
+	if !parse {
+		f = append(f, "-parse=false")
+	}
+	return f
+}
+
+func processViaBinary(in io.Reader, out io.Writer, c renderCfg, parse bool) error {
+	pp := os.Getenv("VERIF_PP")
+	if pp == "" {
+		return fmt.Errorf("verif: no pp binary")
+	}
+	cmd := exec.Command(pp, cfgFlags(c, parse)...)
+	cmd.Stdin = in
+	cmd.Stdout = out
+	var se bytes.Buffer
+	cmd.Stderr = &se
+	if err := cmd.Run(); err != nil {
+		if reCrashReport.MatchString(se.String()) {
+			panic("pp crashed: " + strings.SplitN(se.String(), "\n", 2)[0])
+		}
+		return fmt.Errorf("pp: %v: %s", err, strings.TrimSpace(se.String()))
+	}
+	return nil
+}
+
+var reCrashReport = regexp.MustCompile(`(?m)^(panic: |fatal error: |goroutine \d+ \[)`)
+
 func runProcess(in []byte, c renderCfg) (out string, err error, panicked string) {
 	defer func() {
 		if e := recover(); e != nil {
 			panicked = fmt.Sprintf("%v\n%s", e, debug.Stack())
 		}
 	}()
-	p := &Palette{}
-	if c.colour {
-		p = &defaultPalette
-	}
-	var filter, match *regexp.Regexp
-	if c.filter != "" {
-		filter = regexp.MustCompile(c.filter)
-	}
-	if c.match != "" {
-		match = regexp.MustCompile(c.match)
-	}
 	var buf bytes.Buffer
-	err = process(bytes.NewReader(in), &buf, p, c.level, c.pf, false, c.rebase, "", filter, match)
+	err = processFn(bytes.NewReader(in), &buf, c, false)
 	return buf.String(), err, ""
 }
 
@@ -175,14 +237,14 @@ func splitBlocks(out string) (blocks []block, stray []string) {
 	return
 }
 
-func formatCallRef(pf pathFormat, c *stack.Call) string {
+func formatCallRef(pf pathStyle, c *stack.Call) string {
 	switch pf {
-	case relPath:
+	case styleRel:
 		if c.RelSrcPath != "" {
 			return fmt.Sprintf("%s:%d", c.RelSrcPath, c.Line)
 		}
 		fallthrough
-	case fullPath:
+	case styleFull:
 		if c.LocalSrcPath != "" {
 			return fmt.Sprintf("%s:%d", c.LocalSrcPath, c.Line)
 		}
@@ -223,7 +285,7 @@ func expectedBlocks(in []byte, c renderCfg) ([]expectedBlock, *stack.Snapshot, e
 
 // checkBlock verifies one rendered block against its expectation; it returns the
 // rune columns of the file and function fields of each frame line.
-func checkBlock(b block, e expectedBlock, pf pathFormat) (msg string, fileCols, funcCols []int) {
+func checkBlock(b block, e expectedBlock, pf pathStyle) (msg string, fileCols, funcCols []int) {
 	hd := stripANSI(b.header)
 	pre := fmt.Sprintf("%d: %s", e.count, e.sig.State)
 	if !strings.HasPrefix(hd, pre) {
@@ -427,7 +489,7 @@ func trunc(s string) string {
 
 func c16Expressions(in []byte) []string {
 	ex := []string{"locked", "minutes", "Created by", `^\d+: `, ".*", "^$", "running|select", `\[`, "chan"}
-	exp, _, _ := expectedBlocks(in, renderCfg{pf: basePath, level: stack.AnyPointer})
+	exp, _, _ := expectedBlocks(in, renderCfg{pf: styleBase, level: stack.AnyPointer})
 	seen := map[string]bool{}
 	for _, e := range exp {
 		q := regexp.QuoteMeta(e.sig.State)
@@ -465,17 +527,17 @@ func TestVerifC16(t *testing.T) {
 	seq := 0
 	for ii, in := range inputs {
 		exprs := c16Expressions(in)
-		for _, pf := range []pathFormat{basePath, relPath, fullPath} {
+		for _, pf := range []pathStyle{styleBase, styleRel, styleFull} {
 			for _, colour := range []bool{false, true} {
 				for _, lv := range []stack.Similarity{stack.AnyPointer, stack.AnyValue} {
 					cfgs := []renderCfg{{pf: pf, colour: colour, level: lv, rebase: true}}
-					if pf == basePath {
+					if pf == styleBase {
 						cfgs = append(cfgs, renderCfg{pf: pf, colour: colour, level: lv, rebase: false})
 					}
 					if lv == stack.AnyPointer {
 						for _, e := range exprs {
 							cfgs = append(cfgs, renderCfg{pf: pf, colour: colour, level: lv, rebase: true, filter: e})
-							if pf == basePath {
+							if pf == styleBase {
 								cfgs = append(cfgs, renderCfg{pf: pf, colour: colour, level: lv, rebase: true, match: e})
 							}
 						}
@@ -514,15 +576,15 @@ func TestVerifC16(t *testing.T) {
 				if !r.MineIdx(n) {
 					continue
 				}
-				cfg := renderCfg{pf: basePath, level: stack.AnyPointer, rebase: true}
+				cfg := renderCfg{pf: styleBase, level: stack.AnyPointer, rebase: true}
 				for i, f := range flags {
 					switch f {
 					case "-force-color":
 						cfg.colour = true
 					case "-full-path":
-						cfg.pf = fullPath
+						cfg.pf = styleFull
 					case "-rel-path":
-						cfg.pf = relPath
+						cfg.pf = styleRel
 					case "-aggressive":
 						cfg.level = stack.AnyValue
 					case "-f":
